@@ -61,6 +61,7 @@ fn main() {
                 }
             }
         }
+        Some("worker") => checks::worker(&args[2..]),
         _ => {
             eprintln!("usage: wfv check <ID> [--tier quick|thorough] | wfv replay <file>");
             2
